@@ -12,6 +12,23 @@ def check_c17(ctx):
     for s in deep:
         s["id"] += len(scn)
     scn = scn + deep
+    # variants with one return payload the embedded payload grammar refuses (free text for the Sysl parser): building the
+    # relational form must then be refused as a whole, not succeed with the statement and its neighbours left out
+    import copy
+    import random
+    rng = random.Random(ctx.seed * 17 + 5)
+    bad_payloads = ["ok <: Thing [k=unquoted]", "ok <: Thing [~a", "ok <:", "200 <: sequence of [x]"]
+    extra = []
+    for s in scn:
+        rets = [i for i, d in enumerate(s["decls"]) if d.get("k") == "stmt" and d.get("kind") == "ret"]
+        if not rets or rng.random() > (0.5 if quick else 0.8):
+            continue
+        v = copy.deepcopy(s)
+        v["decls"][rng.choice(rets)]["text"] = rng.choice(bad_payloads)
+        v["id"] = len(scn) + len(extra) + 1
+        v["refusable"] = True
+        extra.append(v)
+    scn = scn + extra
     events, _ = core.vh_sharded(ctx, "relmod", scn, timeout=3000)
     prints, nev, results = core.validate(ctx, "RelmodTrace", "RelmodTrace.cfg", events, chunk=20000)
     by_id = {s["id"]: s for s in scn}
@@ -56,11 +73,12 @@ def check_c17(ctx):
     states = sum(r.distinct for r in results)
     cov = {"states": max(states, 1), "transitions": max(states, 1), "traces_validated_against_impl": len(scn),
            "rows_compared": nrows, "relations_seen": sorted(rels), "deepest_statement_path": depth,
-           "refused": sum(1 for e in events if e["e"] == "refused"),
+           "refused": sum(1 for e in events if e["e"] == "refused"), "variants_with_refusable_payload": len(extra),
            "samples": [[e for e in events if e["e"] == "rows"][0]["rows"][:10]] if nrows else []}
     return core.finish(ctx, "model_checking", cov, [
         "the specification Relmod.tla states the census relation (rows = census of the module, statement paths distinct, same rows twice); "
         "TLC evaluates it on every recorded schema; the census itself is taken by the harness from the compiled module, independently of relmod",
+        "about half of the programs with a return statement are run again with one payload replaced by text the payload grammar refuses",
         "return payloads are counted, not compared (relmod parses them into status and type); array-valued annotations, parameter rows, "
         "views and source-context relations are not compared row for row",
         "inputs: TLC-generated programs (all declaration kinds) plus call-graph programs with statements nested 5 deep",
